@@ -1,0 +1,38 @@
+//go:build verif
+
+package parser
+
+import (
+	"reflect"
+	"runtime"
+	"strings"
+
+	"grol.io/grol/lexer"
+	"grol.io/grol/token"
+)
+
+// VerifParseTables returns, for a freshly constructed parser, the name of the parse function
+// registered for each token type (verification hook: the translator reads the registration
+// tables as they are at run time).
+func VerifParseTables() (prefix, infix, postfix map[token.Type]string) {
+	p := New(lexer.New(""))
+	name := func(fn any) string {
+		n := runtime.FuncForPC(reflect.ValueOf(fn).Pointer()).Name()
+		n = strings.TrimSuffix(n, "-fm")
+		if i := strings.LastIndex(n, "."); i >= 0 {
+			n = n[i+1:]
+		}
+		return n
+	}
+	prefix, infix, postfix = map[token.Type]string{}, map[token.Type]string{}, map[token.Type]string{}
+	for t, fn := range p.prefixParseFns {
+		prefix[t] = name(fn)
+	}
+	for t, fn := range p.infixParseFns {
+		infix[t] = name(fn)
+	}
+	for t, fn := range p.postfixParseFns {
+		postfix[t] = name(fn)
+	}
+	return prefix, infix, postfix
+}
